@@ -149,13 +149,13 @@ Definition clear_achromatic_frame : M unit :=
 Definition clear_chromatic_frame : M unit :=
   s <- get ;;
   if bg s =? cWhite then
-    command 0x24 ;;
+    command 0x26 ;;
     data_x_times 0x00 (buffer_len WIDTH HEIGHT)
   else if bg s =? cChromatic then
-    command 0x24 ;;
+    command 0x26 ;;
     data_x_times 0xFF (buffer_len WIDTH HEIGHT)
   else
-    command 0x24 ;;
+    command 0x26 ;;
     data_x_times 0x00 (buffer_len WIDTH HEIGHT).
 
 Definition clear_frame : M unit :=
